@@ -1186,28 +1186,34 @@ func (r *replay) compare(st kit.Step, quiescent bool) error {
 		default:
 		}
 	}
-	// bounded configurations: wait until the package's own gauges show the specification's
-	// queue lengths, so that the next caller step meets the state the specification is in
-	// (never compared as an observable; expiry is infrastructure trouble)
+	// Quiescent state: wait until the package's own gauges (exported WriterPressureObserver) show
+	// the specification's queue lengths, so that the next caller step meets the state the
+	// specification is in.  A writer pass admits the inbox snapshot it took when it started; without
+	// this wait a slow pass could still hold an older snapshot when the driver goes on, and the real
+	// writer would cut its batches differently from the schedule (legal, but not the schedule being
+	// replayed).  The gauges are never compared as observables; expiry is infrastructure trouble.
 	cfg := r.sut.cfg
-	if cfg.Hw != 99 || cfg.Cap != 99 {
-		sync := kit.Map(proj, "sync")
-		deadline := time.Now().Add(vStepWait)
-		o := r.sut.obs
-		o.mu.Lock()
-		for !(o.last.AdmissionDepth == int(kit.Int(sync, "adm")) && o.last.PendingAppendItems == int(kit.Int(sync, "pend")) &&
-			o.last.AppendInflightItems == int(kit.Int(sync, "infl"))) {
-			if time.Now().After(deadline) {
-				last := o.last
-				o.mu.Unlock()
-				return &infraErr{fmt.Sprintf("pressure gauges did not settle: adm/pend/infl = %d/%d/%d, specification %v", last.AdmissionDepth, last.PendingAppendItems, last.AppendInflightItems, sync)}
-			}
+	sync := kit.Map(proj, "sync")
+	deadline := time.Now().Add(vStepWait)
+	o := r.sut.obs
+	settled := func() bool {
+		if o.last.PendingAppendItems != int(kit.Int(sync, "pend")) || o.last.AppendInflightItems != int(kit.Int(sync, "infl")) {
+			return false
+		}
+		return cfg.Cap == 99 || o.last.AdmissionDepth == int(kit.Int(sync, "adm"))
+	}
+	o.mu.Lock()
+	for !settled() {
+		if time.Now().After(deadline) {
+			last := o.last
 			o.mu.Unlock()
-			time.Sleep(200 * time.Microsecond)
-			o.mu.Lock()
+			return &infraErr{fmt.Sprintf("pressure gauges did not settle: adm/pend/infl = %d/%d/%d, specification %v", last.AdmissionDepth, last.PendingAppendItems, last.AppendInflightItems, sync)}
 		}
 		o.mu.Unlock()
+		time.Sleep(100 * time.Microsecond)
+		o.mu.Lock()
 	}
+	o.mu.Unlock()
 	return nil
 }
 
